@@ -1,0 +1,9 @@
+//go:build !verif
+
+package generator
+
+// Verification hooks (see build tag verif): no-ops in regular builds.
+
+func verifEvent(_, _ string) {}
+
+func verifYield(_ string) {}
